@@ -186,6 +186,8 @@ def strict_improver(ctx, rid, key):
 def rules(ctx):
     guarded_arith(ctx)
     overflow_default(ctx)
+    from . import formulas
+    formulas.overflow_capacity_formula(ctx, "R2")
     overflow_covers_maintenance(ctx)
     unlimited_search(ctx, "R3", "solver::local_search::build_local_search_solver", PLS_WITH, "schedule local search")
     unlimited_search(ctx, "R3", "solver::transition_local_search::build_transition_local_search_solver", PLS_WITH,
